@@ -74,9 +74,21 @@ func Par(n int, f func(i int)) {
 
 // Scratch creates /verif/.work/<id>.<pid> and returns it with a cleanup.
 func Scratch(id string) (string, func()) {
+	// scratch directories of earlier runs that were killed before their cleanup
+	if old, _ := filepath.Glob(filepath.Join(evid.Root, ".work", id+".*")); old != nil {
+		for _, o := range old {
+			var pid int
+			if _, err := fmt.Sscanf(filepath.Ext(o), ".%d", &pid); err == nil && pid > 0 {
+				if _, err := os.Stat(fmt.Sprintf("/proc/%d", pid)); err != nil {
+					os.RemoveAll(o)
+				}
+			}
+		}
+	}
 	d := filepath.Join(evid.Root, ".work", fmt.Sprintf("%s.%d", id, os.Getpid()))
 	os.RemoveAll(d)
 	os.MkdirAll(d, 0o755)
+	evid.AtFinish = append(evid.AtFinish, func() { os.RemoveAll(d) })
 	return d, func() { os.RemoveAll(d) }
 }
 
